@@ -59,7 +59,7 @@ def main(tier, seed):
                         chk.violation('engine', 'bounded', '%s: %s; program %r resolves correctly through the public API' % (name, v['why'][0][:300], text), {'template': t, 'names': assign}, confirmed=False)
                 # translator validation: sampled paths through the public API (goto_definition)
                 okc = 0; tot = 0
-                for cls, ss in list(res.samples.items())[:6]:
+                for cls, ss in list(res.samples.items())[:(40 if t in ('let-discard',) else 6)]:
                     for smp in ss[:1]:
                         text, nres, raw = native_resolution(oracle, t, smp['names'])
                         eng = [a for _, a in smp['resolution(expr,pattern)']]
